@@ -34,7 +34,8 @@ metamorphic stream S4-relayout:
   `scan (p ++ r) = scan p ⧺ scan r`: the tokens of `p` (EOF apart) are exactly the first tokens of the scan of `p ++ r`, the
   rest have the types and texts of the scan of `r`, and the outcome is that of `r`.  Corollaries for every text:
   `leading_blanks`, `blank_lines_between` (blank lines / indentation lines between lines change no token type or text),
-  `insert_lines` (comment lines, statements or an included file's text inserted between lines add exactly their own tokens).
+  `insert_lines` (comment lines, statements or an included file's text inserted between lines add exactly their own tokens),
+  `scan_chunks` (a text is scanned chunk by chunk: no chunk's tokens depend on its neighbours).
 -/
 namespace A816.C16
 open A816 C10
@@ -313,6 +314,28 @@ theorem insert_lines (cfg : ScanCfg) (hcfg : ScanP.CfgOK cfg) (f : Nat) (p c r :
   obtain ⟨_, a2, a3⟩ := scan_append_tokens cfg hcfg f f p (c ++ r) hp hpok
   obtain ⟨_, b2, b3⟩ := scan_append_tokens cfg hcfg f f c r hcn hcok
   exact ⟨by rw [a2, b2], by rw [a3, b3]⟩
+
+
+open ScanS ScanX in
+/-- **a text is scanned line by line** (chunk by chunk): for chunks that each end with a newline and each scan without
+    error on their own, the types and texts of the tokens of their concatenation followed by any text `r` are those of
+    each chunk's own scan (its `EOF` apart), in order, followed by those of `r`'s scan — and the outcome is `r`'s.  In
+    particular no chunk's tokens depend on its neighbours. -/
+theorem scan_chunks (cfg : ScanCfg) (hcfg : ScanP.CfgOK cfg) (f : Nat) (r : List Char) :
+    ∀ (cs : List (List Char)), (∀ c ∈ cs, Ends c.toArray ∧ (scan cfg .initial f c).error = none) →
+    (scan cfg .initial f (cs.flatten ++ r)).toks.toList.map key =
+      (cs.flatMap fun c => (scan cfg .initial f c).toks.pop.toList.map key) ++ (scan cfg .initial f r).toks.toList.map key ∧
+    (scan cfg .initial f (cs.flatten ++ r)).error.map errKey = (scan cfg .initial f r).error.map errKey := by
+  intro cs
+  induction cs with
+  | nil => intro _; exact ⟨rfl, rfl⟩
+  | cons c cs ih =>
+    intro h
+    obtain ⟨hc1, hc2⟩ := h c List.mem_cons_self
+    obtain ⟨i1, i2⟩ := ih (fun x hx => h x (List.mem_cons_of_mem _ hx))
+    obtain ⟨_, a2, a3⟩ := scan_append_tokens cfg hcfg f f c (cs.flatten ++ r) hc1 hc2
+    simp only [List.flatten_cons, List.append_assoc, List.flatMap_cons]
+    exact ⟨by rw [a2, i1], by rw [a3, i2]⟩
 
 
 /-! non-vacuity: the hypotheses of `blanks_between_tokens` hold at concrete points (checked by evaluation), and the
